@@ -3,56 +3,15 @@
 //! (`gen-prog`), self-contained statistics / softmax queries with large offsets (`gen-stat`)
 //! and programs produced by TLC from the MatrixADT state machine (`replay-spec`), and records
 //! one event per call.  The events are judged by spec/linalg/MatrixTrace.tla.
+mod dense;
 mod gen;
 mod ops;
 
+use dense::*;
 use gen::Gen;
 use ops::*;
 use rand::Rng;
-use smartcore::linalg::naive::dense_matrix::DenseMatrix;
 use vutil::*;
-
-pub struct Dense64;
-pub struct Dense32;
-
-macro_rules! dense_be {
-    ($name:ident, $t:ty, $be:expr, $ty:expr) => {
-        impl Be for $name {
-            type T = $t;
-            type M = DenseMatrix<$t>;
-            const NAME: &'static str = $be;
-            const TY: &'static str = $ty;
-            fn build(via: &str, r: usize, c: usize, data: &[$t]) -> DenseMatrix<$t> {
-                match via {
-                    "from_array" => DenseMatrix::from_array(r, c, data),
-                    "from_vec" => DenseMatrix::from_vec(r, c, data),
-                    "from_2d_array" => {
-                        let rows: Vec<&[$t]> = data.chunks(c).collect();
-                        DenseMatrix::from_2d_array(&rows)
-                    }
-                    "from_2d_vec" => {
-                        let rows: Vec<Vec<$t>> = data.chunks(c).map(|x| x.to_vec()).collect();
-                        DenseMatrix::from_2d_vec(&rows)
-                    }
-                    "new" => DenseMatrix::new(r, c, data.to_vec()),
-                    "row_vector_from_array" => DenseMatrix::row_vector_from_array(data),
-                    "row_vector_from_vec" => DenseMatrix::row_vector_from_vec(data.to_vec()),
-                    "column_vector_from_array" => DenseMatrix::column_vector_from_array(data),
-                    "column_vector_from_vec" => DenseMatrix::column_vector_from_vec(data.to_vec()),
-                    other => panic!("harness: unknown constructor {}", other),
-                }
-            }
-            fn iter_flat(m: &DenseMatrix<$t>) -> Option<Vec<$t>> {
-                Some(m.iter().collect())
-            }
-            fn veq(a: &Vec<$t>, b: &Vec<$t>) -> bool {
-                a == b
-            }
-        }
-    };
-}
-dense_be!(Dense64, f64, "dense", "f64");
-dense_be!(Dense32, f32, "dense", "f32");
 
 /// one random program on back end B
 fn gen_run<B: Be>(g: &mut Gen, run: i64, nops: usize, out: &mut Out) {
@@ -81,6 +40,34 @@ fn replay_run<B: Be>(run: i64, calls: &[OpCall], out: &mut Out) -> usize {
         }
     }
     file.skipped
+}
+
+/// re-execute recorded events (Reset / Op / Stat) of one back end: the calls are taken from the
+/// events, the observations are made afresh
+fn replay_events<B: Be>(evs: &[serde_json::Value], out: &mut Out) {
+    let mut file: File<B> = File::new();
+    for e in evs {
+        let run = e["run"].as_i64().unwrap_or(0);
+        match e["ev"].as_str().unwrap_or("") {
+            "Reset" => {
+                file = File::new();
+                out.emit(reset_event::<B>(run));
+            }
+            "Op" => {
+                if let Some(x) = file.exec(run, &OpCall::from_json(e)) {
+                    out.emit(x);
+                }
+            }
+            "Stat" => {
+                let d: Vec<i64> = e["id"].as_array().unwrap().iter().map(|x| x.as_i64().unwrap()).collect();
+                let (r, c) = (e["ir"].as_u64().unwrap() as usize, e["ic"].as_u64().unwrap() as usize);
+                if let Some(x) = file.exec_stat(run, &OpCall::from_json(e), e["ik"].as_str().unwrap(), r, c, &d) {
+                    out.emit(x);
+                }
+            }
+            _ => {}
+        }
+    }
 }
 
 fn stat_events<B: Be>(g: &mut Gen, run: &mut i64, n: usize, out: &mut Out) {
@@ -150,7 +137,7 @@ fn main() {
     match mode {
         "gen-prog" => {
             let mut out = Out::create(arg(args, 1));
-            let runs: usize = args.get(2).and_then(|s| s.parse().ok()).unwrap_or(if th { 4000 } else { 600 });
+            let runs: usize = args.get(2).and_then(|s| s.parse().ok()).unwrap_or(if th { 20000 } else { 2400 });
             let nops = 12;
             let mut g = Gen::new(rng(3), true, 12);
             let mut run = 0i64;
@@ -190,6 +177,27 @@ fn main() {
             }
             let n = out.finish();
             println!("events={} programs={} skipped={}", n, progs.len(), skipped);
+        }
+        "replay-events" => {
+            let evs = read_ndjson(arg(args, 1));
+            let mut out = Out::create(arg(args, 2));
+            // split into runs (a run starts at a Reset event)
+            let mut i = 0;
+            while i < evs.len() {
+                let mut j = i + 1;
+                while j < evs.len() && evs[j]["ev"] != "Reset" {
+                    j += 1;
+                }
+                let ty = evs[i]["ty"].as_str().unwrap_or("f64").to_string();
+                if ty == "f32" {
+                    replay_events::<Dense32>(&evs[i..j], &mut out);
+                } else {
+                    replay_events::<Dense64>(&evs[i..j], &mut out);
+                }
+                i = j;
+            }
+            let n = out.finish();
+            println!("events={}", n);
         }
         _ => {
             eprintln!("unknown c03 mode {}", mode);
